@@ -25,6 +25,7 @@
 From TxV Require Import Core.Base Model.PegSyntax Model.Peg Proofs.PegProofs Proofs.PegMemo Proofs.PegFuel.
 From TxV Require Import Model.PegWsDefs
      Proofs.PegWs Proofs.PegWsSim Proofs.PegCmtSim Proofs.PegWsMemo Proofs.PegGap Proofs.PegWsWit.
+From TxV Require Import Model.Build Model.BuildShiftDefs Proofs.BuildShift Proofs.BuildShiftWit.
 
 (* skip absorption: from related positions (equal left of the insertion point, anywhere inside the
    inserted text at it, shifted right of it) skipping ends at corresponding positions *)
@@ -192,3 +193,57 @@ Example C22_any_fuel_nonvacuous :
   PegWsDefs.not_aborted (run g_cmt1 c_default cmt1_orc' false 50 ([97] ++ ([32] ++ [47;47;32;105] ++ [10]) ++ [32;98])%N).
 Proof. exact cmt1_any_fuel. Qed.
 Print Assumptions C22_any_fuel_nonvacuous.
+
+(* ---------------------------------------------------------------- the MODEL (object graph)
+   Model/Build.v (C01/C06: parse tree -> object graph over the dumped metamodel table) commutes with the
+   position shift: on a tree in which no terminal is empty or lies across the insertion point and no
+   NonTerminal is empty ([fits], decidable, evaluated per case), building the shifted tree on the mutated
+   input gives the same outcome (same error, or the same object graph) with _tx_position moved by phi,
+   _tx_position_end by phie, and classes, attribute names, values (incl. the text every base-type
+   conversion is applied to), defaults and containment unchanged.  use_regexp_group = False. *)
+Theorem C22_build_commutes : forall g mm a ins b grp grp' auto r,
+  fits_res (length a) r = true ->
+  build g mm (a ++ ins ++ b) grp' auto false (shift_res (length a) (length ins) r) =
+  map_bres (shift_val (length a) (length ins)) (build g mm (a ++ b) grp auto false r).
+Proof. exact build_sht. Qed.
+Print Assumptions C22_build_commutes.
+
+Theorem C22_model_unchanged_partial : forall g mm cfg orc orc' grp grp' auto fuel a ins b r,
+  ins_wf g cfg ins = true ->
+  shift_okb g (a ++ b) orc (a ++ ins ++ b) orc' (length a) (length ins) = true ->
+  run g cfg orc false fuel (a ++ b) = Parsed r ->
+  fits_res (length a) r = true ->
+  exists r', run g cfg orc' false fuel (a ++ ins ++ b) = Parsed r' /\
+             models_shifted (length a) (length ins)
+               (build g mm (a ++ b) grp auto false r) (build g mm (a ++ ins ++ b) grp' auto false r').
+Proof. exact ws_model_unchanged. Qed.
+Print Assumptions C22_model_unchanged_partial.
+
+Theorem C22_comment_model_unchanged_partial : forall g mm cfg orc orc' grp grp' auto fuel a w1 c w2 b r,
+  cmt_wf g cfg = true ->
+  cmt_ins_okb g cfg orc' a w1 c w2 = true ->
+  shift_okb g (a ++ b) orc (a ++ (w1 ++ c ++ w2) ++ b) orc' (length a) (length (w1 ++ c ++ w2)) = true ->
+  run g cfg orc false fuel (a ++ b) = Parsed r ->
+  PegWsDefs.not_aborted (run g cfg orc' false fuel (a ++ (w1 ++ c ++ w2) ++ b)) ->
+  fits_res (length a) r = true ->
+  exists r', run g cfg orc' false fuel (a ++ (w1 ++ c ++ w2) ++ b) = Parsed r' /\
+             models_shifted (length a) (length (w1 ++ c ++ w2))
+               (build g mm (a ++ b) grp auto false r) (build g mm (a ++ (w1 ++ c ++ w2) ++ b) grp' auto false r').
+Proof. exact comment_model_unchanged. Qed.
+Print Assumptions C22_comment_model_unchanged_partial.
+
+(* "unchanged apart from source positions": with the two position fields erased the models are equal *)
+Theorem C22_models_equal_apart_from_positions : forall k n m m',
+  models_shifted k n m m' -> map_bres erase_val m' = map_bres erase_val m.
+Proof. exact models_shifted_erase. Qed.
+Print Assumptions C22_models_equal_apart_from_positions.
+
+Example C22_model_unchanged_nonvacuous :
+  ins_wf g_obj c_obj [10;32]%N = true /\
+  shift_okb g_obj ([109;32;97;32;49;32] ++ [98;32;50])%N (orc_of tbl_obj)
+            ([109;32;97;32;49;32] ++ [10;32] ++ [98;32;50])%N (orc_of tbl_obj') 6 2 = true /\
+  exists r, run g_obj c_obj (orc_of tbl_obj) false 60 ([109;32;97;32;49;32] ++ [98;32;50])%N = Parsed r /\
+            fits_res 6 r = true /\
+            is_obj (build g_obj mm_obj ([109;32;97;32;49;32] ++ [98;32;50])%N no_grp true false r) = true.
+Proof. exact obj_nonvacuous. Qed.
+Print Assumptions C22_model_unchanged_nonvacuous.
